@@ -795,8 +795,10 @@ def plan_C17(prop, tier):
                  [(c, s_, True) for c in ("g++", "clang++") for s_ in ("20", "2b")]
     base = []
     for cfg in (("NM", 0, 1), ("NM", 2, 1), ("TM", 2, 1), ("TR", 2, 1), ("INT", 2, 0), ("NM", 3, 0), ("MO", 2, 1)):
-        base.append((w1bin(*cfg), svmc_args(tier, G_ALL, 1)))
-    b2 = dict(W2_BOUNDS[tier])
+        # (the differential is about standards/compilers, not depth: quick bounds in both tiers,
+        #  the thorough tier widens the set of builds instead)
+        base.append((w1bin(*cfg), svmc_args("quick", G_ALL, 1)))
+    b2 = dict(W2_BOUNDS["quick"])
     for (f, n, m, a) in (("NM", 2, 3, 0), ("NM", 2, 2, 7), ("TR", 0, 2, -1), ("TM", 3, 2, 2)):
         base.append((w2bin(f, n, m, a), ["--S", b2["S"], "--R", b2["R"], "--faults", 1, "--focus", G_ALL, "--deadline", b2["deadline"]]))
     base.append((w3bin("u8", 4, 8, 0, asan=False), ["--S", 1, "--fault-kinds", 1, "--K", 255, "--L", 300, "--witnesses", 1, "--unq-depth", 1, "--deadline", 400]))
